@@ -71,10 +71,12 @@ CLAIMED = {
  'C15': ('Kernel-checked theorems: 80-byte header parse/serialise round trip with little-endian fields and reversed hashes, block hash = reversed '
          'double-SHA256, compact target expansion, the independent length scanner agrees with the serialiser on every well-formed transaction, and '
          'parsing a framed block yields exactly the parses of the slices (any number of transactions). get_transaction_length is re-translated on every run and proved to agree with the model scanner on every byte string, and BlockHeader.from_raw / serialize_header / '
-         'get_block_hash are translated and proved equal to the model (round trip and block-hash formula for the translated code) (tier T). Block.from_raw (a try/except around the '
-         'transaction loop) is a hand model tied to the code by the correspondence '
-         'run incl. the three mainnet blocks in full (merkle root, witness commitment, per-transaction re-serialisation).',
-         NOTE_COMMON + 'SHA-256 is a parameter.', 'Lean 4 proof (headers and length scanner over translated source; block framing hand model) + differential correspondence', '6/C15'),
+         'get_block_hash are translated and proved equal to the model (round trip and block-hash formula for the translated code) (tier T). Block.from_raw itself — framing, '
+         'transaction count, per-transaction slicing by get_transaction_length, Transaction.from_raw on each slice, and the except-Exception-break handler around the loop body, '
+         'translated statement by statement — is re-translated on every run and proved to succeed exactly when the model does, with the same block (every byte string), so the '
+         'framed-block theorem is about the translated code. The correspondence run covers the three mainnet blocks in full (merkle root, witness commitment, '
+         'per-transaction re-serialisation).',
+         NOTE_COMMON + 'SHA-256 is a parameter.', 'Lean 4 proof over translated source (headers, length scanner, block framing and loop) + differential correspondence', '6/C15'),
  'C08': ('Kernel-checked theorems for every tree shape, depth and leaf index (no bound): the merkle root is BIP341\'s (TapLeaf 0xc0 / sorted '
          'TapBranch), folding TapBranch over the generated path from the target leaf gives the root (through the code\'s global leaf counter), the '
          'address program/parity are lift_x(P) + H_TapTweak(P||root)*G, and the BIP341 script-path verifier recomputes exactly that program and '
